@@ -46,7 +46,11 @@ THEOREMS = [P + t for t in (
      "all_sites_classified", "value_free_except_listed", "data_independent_except_listed", "params_supplied",
      "wellformed_canonical", "wellformed_all_values_except_listed", "injection_rewrites_statement", "leaked_values_exact",
      "leaks_nil_of_value_free_atom", "data_independent_up_to_leaks_partial", "wellformed_empty_containers",
-     "get_matching_nodes_empty_props_wellformed"]
+     "get_matching_nodes_empty_props_wellformed",
+     # identifier holes: the verdict of the lint is independent of the identifiers; every template x argument shape for ALL identifiers
+     "lint_verdict_independent_of_identifiers", "bound_ok_independent_of_identifiers", "scoping_follows_cypher",
+     "clause_structure_checked", "vocabulary_fills_holes", "hole_templates_clean_scalar", "hole_templates_clean_maps",
+     "hole_templates_clean", "wellformed_all_identifiers", "wellformed_all_identifiers_all_values"]
     + [s + "_value_free" for s in VALUE_FREE_SITES]
     + [s + "_value_dependent_counterexample" for s in VALUE_DEPENDENT_SITES])]
 TRUSTED_BASE = [
@@ -54,10 +58,16 @@ TRUSTED_BASE = [
     "(idioms listed in its docstring) and the role table (which method parameters are identifiers, which are values)",
     "Model/Cypher.lean `render` models Python f-string/str()/join/slice semantics on code points; checked by text equality with the "
     "statements recorded at the stand-in driver",
-    "`checkStmt` is a token-level lint (balanced brackets/quotes, no {{ }} {name}, $names supplied, variables bound by a pattern / AS / "
-    "YIELD / UNWIND / comprehension IN THEIR SCOPE - WITH at depth 0 keeps only what it lists or aliases, UNION starts from nothing - "
-    "clause keywords and boolean operators followed by an operand, no dangling comma), not a Cypher parser; CALL { } subqueries are not "
-    "scoped; `{}` and `()` are accepted (valid Cypher); two implementations (Lean, Python) are compared on every recorded statement",
+    "`checkStmt` is a token-level lint, not a Cypher parser: balanced brackets/quotes; no {{ }} {name}; $names supplied; variables bound "
+    "WHERE THEY ARE REFERENCED under Cypher scoping (clause by clause: patterns of MATCH/CREATE/MERGE, AS, YIELD, UNWIND ... AS, "
+    "comprehension / quantifier variables and path variables bind; WITH at depth 0 keeps only what it lists or aliases, `*` keeps all; "
+    "UNION starts from nothing); clause keywords, boolean words (both sides) and operator symbols (= < > + : .) have their operands; no "
+    "dangling comma; clause order (WHERE after MATCH/WITH/YIELD, YIELD after CALL, only UNION after RETURN, statement starts with a "
+    "reading/updating clause and ends in RETURN / an update / CALL).  CALL { } subqueries and comprehension-local scopes are not "
+    "separated; `{}` and `()` are accepted (valid Cypher).  Two implementations from one specification - a one-pass state machine in "
+    "Lean, a clause list with per-rule passes in Python - are compared on every recorded statement and on mutated neighbours of them",
+    "identifier holes are the code points >= 0x110000 (no Python string contains one); the Lean lexer treats them as identifier "
+    "characters - unobservable on real statements",
     "harness/lib_fake_neo4j.py replaces the neo4j driver (canned answers only let each operation run to its end); the oracle names a "
     "call site Class.method#k from the backend frame that called run() and its own ast scan, independently of the translator; "
     "Neo4j/APOC execution is not modelled at all",
@@ -65,10 +75,12 @@ TRUSTED_BASE = [
     "checked only through the text comparison; str() of non-string property values is taken from Python",
 ]
 ASSUMPTIONS = [
-    "identifier arguments (class, relation, property names, merge behaviours, component types) come from the library's own vocabularies; "
+    "identifier arguments (class, relation, property names, merge behaviours, component types) are identifier-shaped strings that are not "
+    "one of the lint's keywords (GoodSubst; proved for the library's own vocabularies: vocabulary_fills_holes); back-ticked merge keys "
+    "(`addr.*`) and a caller's property map containing Class / GraphID / NodeID are outside the hole theorems and covered by enumeration; "
     "integer counts computed by the backend are part of the query shape, not stored values",
-    "well-formedness is the four conditions named by the property, decided by the lint on every operation x identifier choice "
-    "(enumerated, not proved for arbitrary identifiers)",
+    "well-formedness is the conditions named by the property, decided by the lint; for all identifiers by proof "
+    "(wellformed_all_identifiers) in the argument shapes 0/1/2/3 entries per mapping, other sizes by the generators",
 ]
 RULE = ("(call site, identifier choice, value assignment): every backend call x identifiers from the generated vocabularies (all single-slot "
         "choices; multi-slot sampled in quick, exhaustive in thorough) x adversarial values (quotes, backslashes, braces, $, newlines, "
@@ -169,115 +181,197 @@ def _iskw(x):
     return _lower(x) in KEYWORDS
 
 
-def _word(t, w):
-    return t is not None and t[0] == "id" and _lower(t[1]) == w
-
-
-def _sym(t, c):
-    return t is not None and t[0] == "sym" and t[1] == c
-
-
-def _dotted_call(rest):
-    k = 0
-    while k + 1 < len(rest) and _sym(rest[k], ".") and rest[k + 1][0] == "id":
-        if k + 2 < len(rest) and rest[k + 2][0] == "sym":
-            if rest[k + 2][1] == "(":
-                return True
-            k += 2
-            continue
-        return False
-    return False
+def classify(raw):
+    """raw tokens -> tokens with ('kw', lowered word) for keywords; a word right after a `.` is a name, never a keyword"""
+    out = []
+    for i, t in enumerate(raw):
+        if t[0] == "id" and not (i > 0 and raw[i - 1] == ("sym", ".")) and _iskw(t[1]):
+            out.append(("kw", _lower(t[1])))
+        else:
+            out.append(t)
+    return out
 
 
 CLAUSE = set("match optional where return with call yield set remove detach delete unwind union order limit skip create merge foreach".split())
 NEEDS_OPERAND = set("where set return with and or xor not remove delete unwind match yield as in by on limit skip call when then else".split())
 BAD_FOLLOWER = set("""match optional where return with call yield set remove detach delete unwind union order limit skip create merge on and or
 xor as in then else end when by""".split())
+STARTERS = set("match optional create merge call unwind with return foreach".split())
+ENDERS = set("return set remove delete create merge call yield foreach".split())
+SUB = {"order", "skip", "limit"}
+PATTERN_CLAUSES = {"match", "create", "merge"}
+OPEN, CLOSE = "([{", ")]}"
+
+
+def _kw(t, *ws):
+    return t is not None and t[0] == "kw" and t[1] in ws
+
+
+def _sym(t, *cs):
+    return t is not None and t[0] == "sym" and t[1] in cs
+
+
+def _bad_follower(t):
+    return t is None or (t[0] == "kw" and t[1] in BAD_FOLLOWER) or (t[0] == "sym" and t[1] in ")]},;|")
+
+
+def _operand_end(t):
+    if t is None:
+        return False
+    return t[0] in ("id", "num", "str", "par") or (t[0] == "sym" and t[1] in ")]}*") or (t[0] == "kw" and t[1] in ("null", "true", "false", "end"))
+
+
+def _dotted_call(toks, i):
+    """tokens from i on read  .w.w…(  : the identifier before them is the head of a namespaced function / procedure name"""
+    while i + 1 < len(toks) and _sym(toks[i], ".") and toks[i + 1][0] in ("id", "kw"):
+        if i + 2 < len(toks) and toks[i + 2][0] == "sym":
+            if toks[i + 2][1] == "(":
+                return True
+            i += 2
+            continue
+        return False
+    return False
+
+
+class Clause:
+    """one clause of the statement: the clause word at bracket depth 0 that opens it (None for anything before the first one)
+    and the index range of its tokens (the word included)"""
+    def __init__(self, word, lo):
+        self.word, self.lo, self.hi = word, lo, lo
+
+
+def split_clauses(toks):
+    """-> (clauses, depth before each token).  A clause word nested in brackets (the WHERE of a quantifier or comprehension)
+    and the WITH of STARTS WITH / ENDS WITH open nothing."""
+    depth, d = [], 0
+    for t in toks:
+        depth.append(d)
+        if t[0] == "sym" and t[1] in OPEN:
+            d += 1
+        elif t[0] == "sym" and t[1] in CLOSE:
+            d = max(0, d - 1)
+    clauses = [Clause(None, 0)]
+    for i, t in enumerate(toks):
+        if t[0] == "kw" and t[1] in CLAUSE and depth[i] == 0 and not (t[1] == "with" and i > 0 and _kw(toks[i - 1], "starts", "ends")):
+            clauses[-1].hi = i
+            clauses.append(Clause(t[1], i))
+    clauses[-1].hi = len(toks)
+    return clauses, depth
+
+
+def scope_check(toks):
+    """Cypher scoping, clause by clause.  Returns the variables referenced where they are not visible.
+    visible = what the last WITH handed on (`scope`) + what has been bound since (`bound`); MATCH / CREATE / MERGE patterns,
+    comprehension and quantifier variables, aliases (AS), YIELD items and path variables bind; a WITH keeps only the bare variables
+    and aliases it lists (`*`: everything); UNION starts from nothing; a reference must be visible by the end of its own clause."""
+    clauses, depth = split_clauses(toks)
+    n = len(toks)
+    at = lambda i: toks[i] if 0 <= i < n else None
+    # YIELD regions: the identifiers (and , *) right after a YIELD are result names
+    yielded = set()
+    for i, t in enumerate(toks):
+        if _kw(t, "yield"):
+            j = i + 1
+            while j < n and (toks[j][0] == "id" or _sym(toks[j], ",", "*")):
+                if toks[j][0] == "id":
+                    yielded.add(j)
+                j += 1
+    scope, bound, unbound = [], [], []
+    last = ""
+    for c in clauses:
+        w = c.word
+        if w == "union":
+            scope, bound, last = [], [], ""
+        elif w is not None and w not in SUB:
+            last = w
+        binders, refs, keep, star = [], [], [], False
+        is_with = w == "with"
+        for i in range(c.lo, c.hi):
+            t = toks[i]
+            p1, p2, nx = at(i - 1), at(i - 2), at(i + 1)
+            if is_with and depth[i] == 0 and _sym(t, "*") and _kw(p1, "with", "distinct"):
+                star = True
+            if t[0] != "id":
+                continue
+            x = t[1]
+            if i in yielded:
+                binders.append(x)
+                continue
+            pattern_var = _sym(p1, "(") and not (p2 is not None and p2[0] == "id") and not _sym(nx, ".", "(")
+            rel_var = _sym(p1, "[") and _sym(p2, "-")
+            local_var = _sym(p1, "[") and _kw(nx, "in")
+            alias = _kw(p1, "as")
+            path_var = depth[i] == 0 and _sym(nx, "=") and (_kw(p1, *PATTERN_CLAUSES) or (_sym(p1, ",") and last in PATTERN_CLAUSES))
+            if pattern_var or rel_var or local_var or alias or path_var:
+                binders.append(x)
+            name_position = _sym(p1, ".", ":") or _sym(nx, ":", "(") or (_sym(nx, ".") and _dotted_call(toks, i + 1)) or _kw(p1, "index")
+            if not name_position:
+                refs.append(x)
+            if is_with and depth[i] == 0:
+                bare = (_kw(p1, "with", "distinct") or _sym(p1, ",")) and (nx is None or _sym(nx, ",") or (nx[0] == "kw" and nx[1] in CLAUSE))
+                if bare or alias:
+                    keep.append(x)
+        for x in binders:
+            if x not in bound:
+                bound.append(x)
+        for x in refs:
+            if x not in scope and x not in bound and x not in unbound:
+                unbound.append(x)
+        if is_with:
+            scope = list(dict.fromkeys(keep)) + ((scope + bound) if star else [])
+            bound = []
+    return unbound, clauses
+
+
+def order_check(clauses):
+    """the clauses come in an order Cypher accepts: a statement (and each UNION branch) starts with a reading / updating clause,
+    WHERE belongs to MATCH / WITH / YIELD, YIELD to CALL, only UNION (or ORDER BY / SKIP / LIMIT) follows RETURN, and the
+    statement ends in RETURN, an updating clause or a CALL"""
+    last, bad = "", False
+    for c in clauses:
+        w = c.word
+        if w is None:
+            continue
+        if last == "":
+            ok = w in STARTERS
+        elif last == "return":
+            ok = w == "union" or w in SUB
+        elif last == "optional":
+            ok = w == "match"
+        elif last == "detach":
+            ok = w == "delete"
+        elif w == "where":
+            ok = last in ("match", "with", "yield")
+        elif w == "yield":
+            ok = last == "call"
+        elif w == "union":
+            ok = False
+        elif w in SUB:
+            ok = last == "with"
+        else:
+            ok = True
+        bad = bad or not ok
+        last = "" if w == "union" else (last if w in SUB else w)
+    return bad or last not in ENDERS
 
 
 def lint(text, supplied):
-    """Well-formedness as the property names it, decided on tokens:
-    balanced; nothing unexpanded; every $name supplied; every variable bound IN ITS SCOPE (a WITH clause at bracket depth 0 starts a new
-    scope holding only the variables it lists or aliases, `*` keeps all, UNION starts from nothing; patterns, AS, YIELD, UNWIND ... AS and
-    comprehensions bind); every clause keyword / boolean operator is followed by an operand; no dangling comma."""
-    toks, stripped, closed, _ = lex(text)
-    scope, seg_b, seg_u, carry, unbound = [], [], [], [], []
-    star = in_items = in_yield = False
-    depth = 0
-    empty_clause = dangling = False
-
-    def close(reset):
-        nonlocal scope, seg_b, seg_u, in_items
-        for x in seg_u:
-            if x not in scope and x not in seg_b and x not in unbound:
-                unbound.append(x)
-        if reset:
-            scope = []
-        elif in_items:
-            scope = list(carry) + ((scope + seg_b) if star else [])
-        else:
-            scope = scope + seg_b
-        seg_b, seg_u, in_items = [], [], False
-
-    for i, cur in enumerate(toks):
-        p1 = toks[i - 1] if i >= 1 else None
-        p2 = toks[i - 2] if i >= 2 else None
-        nx = toks[i + 1] if i + 1 < len(toks) else None
-        # operands and commas
-        if cur[0] == "id" and _lower(cur[1]) in NEEDS_OPERAND:
-            if nx is None or (nx[0] == "id" and _lower(nx[1]) in BAD_FOLLOWER) or (nx[0] == "sym" and nx[1] in ")]},;|"):
-                empty_clause = True
-        if cur[0] == "sym":
-            if cur[1] == "," and (nx is None or (nx[0] == "sym" and nx[1] in ")]},")):
-                dangling = True
-            if cur[1] in "([{" and _sym(nx, ","):
-                dangling = True
-        if cur[0] == "id":
-            x = cur[1]
-            lw = _lower(x)
-            kw = lw in KEYWORDS
-            if depth == 0:
-                with_clause = lw == "with" and not (_word(p1, "starts") or _word(p1, "ends"))
-                if lw in CLAUSE and (lw != "with" or with_clause) and in_items:
-                    close(False)
-                if lw == "union":
-                    close(True)
-                if with_clause:
-                    in_items, carry, star = True, [], False
-            if in_yield and not kw:
-                if x not in seg_b:
-                    seg_b.append(x)
-            else:
-                in_yield = lw == "yield"
-                if not kw:
-                    b1 = _sym(p1, "(") and not (p2 is not None and p2[0] == "id" and not _iskw(p2[1])) and not _sym(nx, ".") and not _sym(nx, "(")
-                    b2 = _sym(p1, "[") and _sym(p2, "-")
-                    b3 = _sym(p1, "[") and _word(nx, "in")
-                    b4 = _word(p1, "as")
-                    b6 = _sym(nx, "=") and not _sym(p1, ".")
-                    u = (not _sym(p1, ".") and not _sym(p1, ":") and not _sym(nx, ":") and not _sym(nx, "(")
-                         and not (_sym(nx, ".") and _dotted_call(toks[i + 1:])) and not _word(p1, "index"))
-                    if (b1 or b2 or b3 or b4 or b6) and x not in seg_b:
-                        seg_b.append(x)
-                    if u and x not in seg_u:
-                        seg_u.append(x)
-            if in_items and depth == 0 and not kw:
-                item_start = _word(p1, "with") or _word(p1, "distinct") or _sym(p1, ",")
-                item_end = nx is None or _sym(nx, ",") or (nx[0] == "id" and _lower(nx[1]) in CLAUSE)
-                if ((item_start and item_end) or _word(p1, "as")) and x not in carry:
-                    carry.append(x)
-        elif cur[0] == "sym":
-            c = cur[1]
-            in_yield = in_yield and c in ",*"
-            if in_items and depth == 0 and c == "*" and (_word(p1, "with") or _word(p1, "distinct")):
-                star = True
-            if c in "([{":
-                depth += 1
-            elif c in ")]}":
-                depth = max(0, depth - 1)
-        else:
-            in_yield = False
-    close(False)
+    """Well-formedness as the property names it, decided on tokens (written from the specification, independently of
+    Model/Cypher.lean: clause list + passes here, one state machine there):
+    balanced; nothing unexpanded; every $name supplied; every variable bound where it is referenced (scope_check); every clause
+    keyword / boolean word / operator symbol has its operand(s); no dangling comma; clause order (order_check)."""
+    raw, stripped, closed, _ = lex(text)
+    toks = classify(raw)
+    n = len(toks)
+    at = lambda i: toks[i] if 0 <= i < n else None
+    unbound, clauses = scope_check(toks)
+    empty_clause = any(t[0] == "kw" and t[1] in NEEDS_OPERAND and _bad_follower(at(i + 1)) for i, t in enumerate(toks))
+    dangling = any((_sym(t, ",") and (at(i + 1) is None or _sym(at(i + 1), ")", "]", "}", ","))) or
+                   (_sym(t, *OPEN) and _sym(at(i + 1), ",")) for i, t in enumerate(toks))
+    operand = any((_kw(t, "and", "or", "xor") and not _operand_end(at(i - 1))) or
+                  ((_sym(t, "=", "<", ">", "+", ":") or (_sym(t, ".") and not _sym(at(i - 1), "."))) and _bad_follower(at(i + 1)))
+                  for i, t in enumerate(toks))
+    order = order_check(clauses)
     pars = []
     for t in toks:
         if t[0] == "par" and t[1] not in pars:
@@ -296,6 +390,10 @@ def lint(text, supplied):
         defects.append("empty-clause")
     if dangling:
         defects.append("dangling-comma")
+    if operand:
+        defects.append("missing-operand")
+    if order:
+        defects.append("clause-order")
     return {"defects": defects, "unbound": unbound, "missing": missing}
 
 
@@ -385,7 +483,8 @@ def calls():
         Call("get_nodes_on_shortest_path", PG, "get_nodes_on_shortest_path", {"rel": "rels?"}, ["node_a", "node_z"],
              expect=lambda c, nv: [(_k(PG, "get_nodes_on_shortest_path"), 0 if c["idents"].get("rel") is None else 1)]),
         Call("get_nodes_on_path_with_hops", PG, "get_nodes_on_path_with_hops", values=["node_a", "node_z", "cut_off"],
-             kwargs=lambda c: {"hops": [] if c.get("empty_hops") else [c["values"]["node_z"]]}, expect=lambda c, nv: [(_k(PG, "get_nodes_on_path_with_hops"), 0)]),
+             kwargs=lambda c: {"hops": list(c["hops"]) if "hops" in c else [c["values"]["node_z"]]},
+             expect=lambda c, nv: [(_k(PG, "get_nodes_on_path_with_hops"), 0)]),
         Call("get_first_neighbor", PG, "get_first_neighbor", {"rel": "rels", "node_label": "classes"}, ["node_id"],
              expect=lambda c, nv: [(_k(PG, "get_first_neighbor"), 0)]),
         Call("get_first_and_second_neighbor", PG, "get_first_and_second_neighbor",
@@ -538,6 +637,8 @@ def drive(case, via=None):
             kw[mm] = None if rows is None else {k: v for k, v in rows}
     if call.kwargs:
         kw.update(call.kwargs(case))
+    for k in case.get("omit", []):      # optional arguments left to their defaults
+        kw.pop(k, None)
     for k in list(kw):
         if kw[k] == "OTHER":
             kw[k] = other
@@ -730,9 +831,15 @@ def corpus_cases():
     return out
 
 
+def shape_of(rows):
+    return "None" if rows is None else ("empty" if len(rows) == 0 else ("one" if len(rows) == 1 else "several"))
+
+
 def corner_groups(call, rng):
-    """deterministic corner cases, always generated first: every mapping argument None (where the call allows it), EMPTY and with one
-    entry, in every combination; every optional identifier both defaulted and supplied; an empty hop list"""
+    """deterministic corner cases, always generated first: EVERY optional / container argument of the call in every shape, in every
+    combination - a mapping None (where the call allows it), EMPTY, with one, two and three entries (components: also a type
+    without model and a SharedNIC); every optional identifier both defaulted and supplied; the hop list empty / one / several; an
+    optional scalar both defaulted (omitted) and supplied"""
     V = voc()
     opts = []
     for m in call.maps:
@@ -741,24 +848,45 @@ def corner_groups(call, rng):
         one = {"props": [V["props"][0]], "merge_properties": [("name", "overwrite")], "comps": [("GPU", True)]}[mm]
         two = {"props": V["props"][1:3], "merge_properties": [("name", "discard"), ("`.*`", "combine")],
                "comps": [("GPU", True), ("GPU", True), ("SharedNIC", False)]}[mm]
-        opts.append([(mm, k) for k in (([] if must else [None]) + [[], one, two])])
+        three = {"props": V["props"][3:6], "merge_properties": [("Capacities", "combine"), ("name", "discard"), ("`addr.*`", "overwrite")],
+                 "comps": [("SmartNIC", True), ("GPU", False), ("NVME", True), ("NVME", True)]}[mm]
+        opts.append([(mm, k) for k in (([] if must else [None]) + [[], one, two, three])])
     id_opts = []
     for slot in sorted(call.idents):
         d = call.idents[slot]
         dom = V["props" if d == "props_unsettable" else d.rstrip("?")]
         first = [p for p in dom if p not in ("GraphID", "NodeID", "Class", "Name", "Type")][0] if d == "props_unsettable" else dom[0]
         id_opts.append([(slot, v) for v in (([None] if d.endswith("?") else []) + [first])])
+    flag_sets = [{}]
+    if call.name == "get_nodes_on_path_with_hops":
+        flag_sets = [dict(hops=h, **o) for h in ([], ["h1"], ["h1", "h2", "h3"]) for o in ({}, {"omit": ["cut_off"]})]
     out = []
     for mc in itertools.product(*opts):
         for ic in itertools.product(*id_opts):
             keys = dict(mc)
-            for flags in ([{}, {"empty_hops": True}] if call.name == "get_nodes_on_path_with_hops" else [{}]):
+            for flags in flag_sets:
                 base = dict({"call": call.name, "idents": dict(ic), "values": gen_values(call, rng, "benign"),
                              "maps": gen_maps(call, rng, "benign", keys=keys)}, **flags)
                 adv = dict({"call": call.name, "idents": dict(ic), "values": gen_values(call, rng, "adv"),
                             "maps": gen_maps(call, rng, "adv", keys=keys)}, **flags)
+                if "hops" in flags:
+                    adv["hops"] = [fmt(adv_value(rng)) for _ in flags["hops"]]
                 out.append((base, [adv]))
     return out
+
+
+def count_shapes(res, case):
+    """argument-shape histogram for the evidence: which shapes of every optional / container argument were driven"""
+    for m, rows in case["maps"].items():
+        res.count("shape:%s:%s=%s" % (case["call"], m, shape_of(rows)))
+    call = call_by_name(case["call"])
+    for slot, d in call.idents.items():
+        if d.endswith("?"):
+            res.count("shape:%s:%s=%s" % (case["call"], slot, "None" if case["idents"].get(slot) is None else "given"))
+    if "hops" in case:
+        res.count("shape:%s:hops=%s" % (case["call"], shape_of(case["hops"])))
+    for k in case.get("omit", []):
+        res.count("shape:%s:%s=default" % (case["call"], k))
 
 
 def gen_cases(ctx, tag, per_call_idents, n_values, min_groups=8):
@@ -773,11 +901,17 @@ def gen_cases(ctx, tag, per_call_idents, n_values, min_groups=8):
             combos = (combos * min_groups)[:max(min_groups, len(combos))]
         for ids in combos:
             base = {"call": call.name, "idents": ids, "values": gen_values(call, rng, "benign"), "maps": gen_maps(call, rng, "benign")}
+            nh = None
+            if call.name == "get_nodes_on_path_with_hops" and rng.random() < 0.8:
+                nh = rng.choice([0, 1, 2, 4])
+                base["hops"] = [rng.choice(BENIGN) for _ in range(nh)]
             keys = map_keys(base["maps"])
             advs = []
             for _ in range(n_values):
-                advs.append({"call": call.name, "idents": ids, "values": gen_values(call, rng, "adv"),
-                             "maps": gen_maps(call, rng, "adv", keys=keys)})
+                a = {"call": call.name, "idents": ids, "values": gen_values(call, rng, "adv"), "maps": gen_maps(call, rng, "adv", keys=keys)}
+                if nh is not None:
+                    a["hops"] = [fmt(adv_value(rng)) for _ in range(nh)]
+                advs.append(a)
             groups.append((base, advs))
     return groups
 
@@ -819,6 +953,7 @@ def correspondence(ctx, res):
         rec, e = drive(case, via)
         exp = call.expect(case, nv)
         res.count("call:" + call.name)
+        count_shapes(res, case)
         if via:
             res.count("via:" + via)
         if e:
@@ -854,6 +989,7 @@ def correspondence(ctx, res):
         if mod != impl:
             res.disagreements.append({"case": {"site": key, "variant": variant, "case": case}, "impl": impl, "model": mod})
         res.sample({"site": key, "idents": case["idents"], "text": text[:200], "lint": impl["defects"]}, limit=3)
+    lint_agreement(ctx, res, sorted({(text, tuple(pn)) for _, _, _, text, pn in meta}))
     # every generated call site must have been driven
     missing = sorted(set(tab) - driven_keys)
     if missing:
@@ -867,6 +1003,69 @@ def correspondence(ctx, res):
     ctx.notes.append("correspondence drove %d call sites of %d generated" % (len(driven_keys), len(tab)))
 
 
+MUT_WORDS = ["WHERE", "AND", "OR", "WITH", "RETURN", "MATCH", "SET", "YIELD", "CALL", "UNWIND", "UNION", "AS", "n", "x", "*", ",", "(", ")",
+             "{", "}", "[", "]", ":", ".", "=", "'", '"', "`", "$p", "{{", "}}", "{name}", "//", "\\", "ORDER BY", "DETACH DELETE", "OPTIONAL", "IN",
+             "NOT", "DISTINCT", "count(", "1", ";", "|", "-", ">", "<", "+"]
+
+
+def mutate(text, rng):
+    """a malformed (or differently formed) neighbour of a statement the backend really issues: both lint implementations
+    must agree on it too"""
+    words = re.findall(r"\s+|[A-Za-z_][A-Za-z_0-9]*|\$[A-Za-z_]\w*|\d+|.", text, re.S)
+    if not words:
+        return text
+    k = rng.randrange(9)
+    i = rng.randrange(len(words))
+    j = rng.randrange(len(words))
+    if k == 0:
+        del words[i]
+    elif k == 1:
+        words.insert(i, words[j])
+    elif k == 2:
+        words[i], words[j] = words[j], words[i]
+    elif k == 3:
+        words.insert(i, " " + rng.choice(MUT_WORDS) + " ")
+    elif k == 4:
+        lo, hi = min(i, j), max(i, j)
+        del words[lo:hi if hi - lo < 12 else lo + 12]
+    elif k == 5:
+        words = words[:i]
+    elif k == 6:
+        words[i] = rng.choice(MUT_WORDS)
+    elif k == 7:
+        ids = [n for n, w in enumerate(words) if re.fullmatch(r"[a-z][a-z0-9]?", w)]
+        if ids:
+            words[rng.choice(ids)] = rng.choice(["q", "n", "m", "a", "r"])
+    else:
+        words = words[i:]
+    return "".join(words)
+
+
+def lint_agreement(ctx, res, stmts):
+    """Model/Cypher.lean `lint` and the Python `lint` above are two implementations of one specification: they must return the same
+    defects, unbound variables (in order) and missing parameters on every statement the backend issues AND on mutated neighbours of
+    those statements (tokens deleted, duplicated, swapped, inserted, renamed; truncations)"""
+    rng = ctx.sub_rng("lint-fuzz")
+    per = ctx.scale(6, 60)
+    cases = []
+    for text, sup in stmts:
+        cases.append((text, list(sup)))
+        for _ in range(per):
+            m = mutate(text, rng)
+            for _ in range(rng.randrange(3)):
+                m = mutate(m, rng)
+            cases.append((m, list(sup) if rng.random() < 0.9 else list(sup)[1:]))
+    out = LeanDriver("C19").run([json.dumps(["lint", t, sup]) for t, sup in cases])
+    for (t, sup), line in zip(cases, out):
+        m = json.loads(line)
+        mine = lint(t, sup)
+        res.evaluations += 1
+        for d in mine["defects"] or ["well-formed"]:
+            res.count("fuzz-lint:" + d)
+        if m[0] != "ok" or m[1] != mine:
+            res.disagreements.append({"case": {"lint": t, "supplied": sup}, "impl": mine, "model": m})
+
+
 # ------------------------------------------------------------------------------------------------------------
 # oracle: the property itself on the implementation
 
@@ -877,12 +1076,13 @@ def check_wellformed(rec0, sites, res, case):
                           case, observed=text, expected="balanced, expanded, bound, parameters supplied")
 
 
-def compare_runs(rec0, sites, rec, supplied_vals, res, case):
+def diff_runs(rec0, sites, rec, supplied_vals):
     """the adversarial run must hand over the same texts, or texts that differ only inside string literals which decode back
-    to a supplied value (a correctly escaped literal)"""
+    to a supplied value (a correctly escaped literal).  -> [(site, kind, observed, expected)]"""
+    out = []
     for (t0, p0, _), (t1, p1, _), site in zip(rec0, rec, sites):
         if p1 != p0:
-            res.violation("C19:%s:parameter-names" % site, "parameter names depend on stored values", case, observed=p1, expected=p0)
+            out.append((site, "parameter-names", p1, p0))
         if t1 == t0:
             continue
         _, s0, c0, l0 = lex(t0)
@@ -893,8 +1093,89 @@ def compare_runs(rec0, sites, rec, supplied_vals, res, case):
                 if a != b and (q1 == "`" or cypher_unescape(b) not in supplied_vals):
                     ok = False
         if not ok:
-            res.violation("C19:%s:value-in-text" % site, "a stored value is interpolated into the statement text without escaping",
-                          case, observed=t1, expected=t0)
+            out.append((site, "value-in-text", t1, t0))
+    return out
+
+
+WHAT = {"parameter-names": "parameter names depend on stored values",
+        "value-in-text": "a stored value is interpolated into the statement text without escaping"}
+# what a leak is shown with when the value that exposed it is not enough on its own: a quote of either kind closing the literal,
+# a trailing backslash swallowing the closing quote, a back-tick, braces and a parameter name
+PAYLOADS = ["p'}) DETACH DELETE n //", 'p"}) DETACH DELETE n //', "p\\", "p`q", "{{p}} {p} $graphId"]
+
+
+def supplied_values(case):
+    out = set()
+    for v in list(case["values"].values()) + [x[1] for x in (case["maps"].get("props") or [])] + \
+            [x[1] for x in (case["maps"].get("comps") or []) if x[1] is not None]:
+        out.add(fmt(v))
+    for h in case.get("hops") or []:
+        out.add(fmt(h))
+    return out
+
+
+def value_args(case):
+    """names of the stored-value arguments of a case: every scalar value, the values of the property map, the component models,
+    the hop ids"""
+    out = ["values." + k for k in sorted(case["values"])]
+    if case["maps"].get("props"):
+        out.append("props.value")
+    if any(m is not None for _, m in (case["maps"].get("comps") or [])):
+        out.append("comps.model")
+    if case.get("hops"):
+        out.append("hops")
+    return out
+
+
+def with_arg(base, arg, src=None, payload=None):
+    """`base` with the one stored-value argument `arg` replaced: by what `src` has there, or by `payload`"""
+    c = json.loads(json.dumps(base))
+    if arg.startswith("values."):
+        k = arg[7:]
+        c["values"][k] = src["values"][k] if src is not None else payload
+    elif arg == "props.value":
+        c["maps"]["props"] = [[k, (src["maps"]["props"][i][1] if src is not None else payload)] for i, (k, _) in enumerate(base["maps"]["props"])]
+    elif arg == "comps.model":
+        c["maps"]["comps"] = [[t, (None if m is None else (src["maps"]["comps"][i][1] if src is not None else payload))]
+                              for i, (t, m) in enumerate(base["maps"]["comps"])]
+    elif arg == "hops":
+        c["hops"] = list(src["hops"]) if src is not None else [payload for _ in base["hops"]]
+    return c
+
+
+_SINGLE = {}
+
+
+def single_run(base, single, rec0, sites):
+    k = canon([base, single])
+    if k not in _SINGLE:
+        rec, _ = drive(single)
+        _SINGLE[k] = [] if len(rec) != len(rec0) else diff_runs(rec0, sites, rec, supplied_values(single))
+        if len(_SINGLE) > 20000:
+            _SINGLE.clear()
+    return _SINGLE[k]
+
+
+def attribute(base, adv, rec0, sites, res, findings):
+    """which ARGUMENT leaks: every stored-value argument is substituted on its own (first with the value the adversarial case has
+    there, then with the fixed payloads); a leak is reported per (call site, kind, argument) with that single-argument case as
+    replay, so that a further value leaking into an already listed statement is a different signature"""
+    left = {(site, kind) for site, kind, _, _ in findings}
+    for arg in value_args(adv):
+        cands = [with_arg(base, arg, src=adv)] + [with_arg(base, arg, payload=pl) for pl in PAYLOADS]
+        seen = set()
+        for single in cands:
+            for site, kind, obs, exp in single_run(base, single, rec0, sites):
+                if (site, kind) in seen:
+                    continue
+                seen.add((site, kind))
+                left.discard((site, kind))
+                res.violation("C19:%s:%s:%s" % (site, kind, arg.replace("values.", "")), WHAT[kind] + " (argument %s)" % arg,
+                              {"kind": "independent", "base": base, "adv": single}, observed=obs, expected=exp)
+    for site, kind, obs, exp in findings:
+        if (site, kind) in left:
+            res.violation("C19:%s:%s:combination" % (site, kind), WHAT[kind] + " (only several arguments together)",
+                          {"kind": "independent", "base": base, "adv": adv}, observed=obs, expected=exp)
 
 
 def check_group(base, advs, res, nv=None):
@@ -914,11 +1195,29 @@ def check_group(base, advs, res, nv=None):
             res.violation("C19:%s.%s:statement-count" % (call.cls, call.method), "number of statements depends on stored values",
                           case, observed=len(rec), expected=len(rec0))
             continue
-        supplied_vals = set()
-        for v in list(adv["values"].values()) + [x[1] for x in (adv["maps"].get("props") or [])] + \
-                [x[1] for x in (adv["maps"].get("comps") or []) if x[1] is not None]:
-            supplied_vals.add(fmt(v))
-        compare_runs(rec0, sites, rec, supplied_vals, res, case)
+        findings = diff_runs(rec0, sites, rec, supplied_values(adv))
+        if findings:
+            attribute(base, adv, rec0, sites, res, findings)
+
+
+def argument_sweep(ctx, res):
+    """deterministic: every call x every argument shape (corner_groups) x every stored-value argument x every payload, one argument
+    at a time against the benign run"""
+    rng = ctx.sub_rng("sweep")
+    n = 0
+    for call in calls():
+        for base, _ in corner_groups(call, rng):
+            rec0, _ = drive(base)
+            sites = list(drive.where)
+            for arg in value_args(base):
+                for pl in PAYLOADS:
+                    single = with_arg(base, arg, payload=pl)
+                    n += 1
+                    f = single_run(base, single, rec0, sites)
+                    if f:
+                        attribute(base, single, rec0, sites, res, f)
+    res.evaluations += n
+    res.count("argument-sweep", n)
 
 
 def oracle(ctx, res, per_call=None, n_values=None):
@@ -927,6 +1226,7 @@ def oracle(ctx, res, per_call=None, n_values=None):
         if "base" in c:
             check_group(c["base"], c.get("advs", []), res)
             res.count("corpus")
+    argument_sweep(ctx, res)
     groups = gen_cases(ctx, "oracle", per_call or ctx.scale(25, 100000), n_values or ctx.scale(6, 20), ctx.scale(10, 60))
     for base, advs in groups:
         res.count("call:" + base["call"])
@@ -974,6 +1274,37 @@ def _compound_run(kind, ids):
     return rec, [site_of(w) for w in imp.driver.last_where], e
 
 
+COMPOUND_IDS = ["cbm_graph_id", "adm_graph_id", "node_id_1", "node_id_2", "name"]
+
+
+def compound_diff(kind, benign, ids, rec0, sites, res):
+    """one compound run with `ids` against the benign run; leaks are attributed to the single id that causes them"""
+    rec, _, e = _compound_run(kind, ids)
+    if len(rec) != len(rec0):
+        res.count("compound-skip")
+        return
+    findings = diff_runs(rec0, sites, rec, set(ids))
+    left = {(site, k) for site, k, _, _ in findings}
+    if findings:
+        for j in range(5):
+            for val in [ids[j]] + [pl + str(j) for pl in PAYLOADS]:
+                single = tuple(val if i == j else benign[i] for i in range(5))
+                r1, _, _ = _compound_run(kind, single)
+                hit = False
+                if len(r1) == len(rec0):
+                    for site, k, obs, exp in diff_runs(rec0, sites, r1, set(single)):
+                        hit = True
+                        left.discard((site, k))
+                        res.violation("C19:%s:%s:%s.%s" % (site, k, kind, COMPOUND_IDS[j]), WHAT[k] + " (%s of %s)" % (COMPOUND_IDS[j], kind),
+                                      {"kind": "compound", "op": kind, "ids": list(single), "base_ids": list(benign)}, observed=obs, expected=exp)
+                if hit:
+                    break
+    for site, k, obs, exp in findings:
+        if (site, k) in left:
+            res.violation("C19:%s:%s:%s.combination" % (site, k, kind), WHAT[k],
+                          {"kind": "compound", "op": kind, "ids": list(ids), "base_ids": list(benign)}, observed=obs, expected=exp)
+
+
 def compound(ctx, res):
     """the CBM's compound operations (clone, import bookkeeping, delegation rewrite, node merge, unmerge): every statement they
     issue is well-formed, and issuing them with adversarial graph ids / node ids / names changes no statement text"""
@@ -985,14 +1316,15 @@ def compound(ctx, res):
         if e0:
             res.count("compound-err:" + e0)
         check_wellformed(rec0, sites, res, {"kind": "compound", "op": kind, "ids": list(benign)})
+        # deterministic: one id at a time, every payload
+        for j in range(5):
+            for pl in PAYLOADS:
+                res.evaluations += 1
+                compound_diff(kind, benign, tuple((pl + str(j)) if i == j else benign[i] for i in range(5)), rec0, sites, res)
         for i in range(ctx.scale(4, 40)):
             ids = tuple((fmt(adv_value(rng)) or "z") + str(j) for j in range(5))
-            rec, _, e = _compound_run(kind, ids)
             res.evaluations += 1
-            if len(rec) != len(rec0):
-                res.count("compound-skip")
-                continue
-            compare_runs(rec0, sites, rec, set(ids), res, {"kind": "compound", "op": kind, "ids": list(ids), "base_ids": list(benign)})
+            compound_diff(kind, benign, ids, rec0, sites, res)
 
 
 def search(ctx, res, broken):
@@ -1010,9 +1342,7 @@ def replay(ctx, payload):
         rec0, sites, _ = _compound_run(c["op"], tuple(c.get("base_ids", c["ids"])))
         check_wellformed(rec0, sites, r, c)
         if "base_ids" in c:
-            rec, _, _ = _compound_run(c["op"], tuple(c["ids"]))
-            if len(rec) == len(rec0):
-                compare_runs(rec0, sites, rec, set(c["ids"]), r, c)
+            compound_diff(c["op"], tuple(c["base_ids"]), tuple(c["ids"]), rec0, sites, r)
     else:
         return False
     for v in r.violations:
